@@ -138,19 +138,20 @@ def interpolate(points):
     return coefs
 
 
-def honest_fri(w, g, r, orc, nvf=0):
+def honest_fri(w, g, r, orc, nvf=0, values=None, points=None):
     """concrete FRI instance accepted by construction: random input values / points / sibling leaves / authentication nodes;
     layer values by the parsed compute_next_layer, Merkle roots by the parsed table_decommit (the expected root is read off the
     MisMatch error of a first run), last layer by interpolation through the final queries.  Returns JSON-ready dict."""
     ex = Exec(w, hash_oracle=orc, int_bound=17)
     out = {}
+    args_values, args_points = values, points
     def entry(ex):
         h = H(ex)
         n = len(g["steps"])
         nq = len(g["queries"])
         queries = RList([F(q) for q in g["queries"]])
-        values = RList([F(r.randrange(P)) for _ in range(nq)])
-        points = RList([F(r.randrange(1, P)) for _ in range(nq)])
+        values = RList([F(r.randrange(P)) for _ in range(nq)]) if args_values is None else RList([F(v) for v in args_values])
+        points = RList([F(r.randrange(1, P)) for _ in range(nq)]) if args_points is None else RList([F(v) for v in args_points])
         cfg = sxh.fri_config(h, "cfg", g["steps"], g["bound"], g["lnc"], F(nvf))
         fq = h.call(sxh.F_FIRST, "gather_first_layer_queries", [queries, deep_copy(values), deep_copy(points)])
         group = h.call("crates/fri/src/group.rs", "get_fri_group", [])
